@@ -136,7 +136,8 @@ def _mk(rng, **force):
             other('channel_map.npy', 'channels.rawInd%s.npy' % lab, rot)
         if rng.random() < 0.5:
             other('channel_positions.npy', 'channels.localCoordinates%s.npy' % lab, lambda d: [v + 1.0 for v in d])
-        if rng.random() < 0.5 and sem['spike_clusters'] is None:
+        if rng.random() < 0.5 and not any(n.startswith(('spike_clusters', 'spikes.clusters')) for n in files):
+            # (with a cluster file present a different winning template file would turn the dataset into a curated one)
             other('spike_templates.npy', 'spikes.templates%s.npy' % lab, lambda d: list(reversed(d)))
         if ks and rng.random() < 0.5:
             # ALF time files next to spike_times.npy are ignored
